@@ -49,6 +49,7 @@ const (
 	StreamClosed
 	StreamFailAfter
 	StreamShort
+	StreamStuck // accepts N bytes, then every write reports a short write of zero bytes (a full, capped buffer)
 )
 
 type StreamPlan struct {
@@ -64,6 +65,8 @@ func (s StreamPlan) String() string {
 		return fmt.Sprintf("fail_after(%d)", s.N)
 	case StreamShort:
 		return fmt.Sprintf("short(%d)", s.N)
+	case StreamStuck:
+		return fmt.Sprintf("stuck_after(%d)", s.N)
 	}
 	return "healthy"
 }
@@ -320,6 +323,21 @@ func (w simWriter) Write(b []byte) (int, error) {
 			p.errAccepted += room
 			p.WriteFaults++
 			return room, errStreamClosed
+		}
+		buf.Write(b)
+		p.errAccepted += len(b)
+		return len(b), nil
+	case StreamStuck:
+		room := p.Stream.N - p.errAccepted
+		if room <= 0 {
+			p.WriteFaults++
+			return 0, io.ErrShortWrite
+		}
+		if len(b) > room {
+			buf.Write(b[:room])
+			p.errAccepted += room
+			p.WriteFaults++
+			return room, io.ErrShortWrite
 		}
 		buf.Write(b)
 		p.errAccepted += len(b)
